@@ -15,8 +15,9 @@ simvars == <<vars, w>>
 Oldest == CHOOSE d \in wire : \A e \in wire : e.id >= d.id
 
 SimNext ==
-  \/ \E s \in 1..2, t \in PubTags : Publish(t, TRUE) /\ w' = s
-  \/ \E t \in PubTags : FALSE \in DeltaOpts /\ Publish(t, FALSE) /\ w' = 0
+  \/ \E s \in 1..2, t \in PubTags : Publish(t, TRUE, "sim") /\ w' = s
+  \/ \E t \in PubTags : "unrel" \in PayKinds /\ Publish(t, TRUE, "unrel") /\ w' = 0
+  \/ \E t \in PubTags, pk \in PayKinds : FALSE \in DeltaOpts /\ Publish(t, FALSE, pk) /\ w' = 0
   \/ ClearHistory /\ w' = 0
   \/ \E s \in 1..4 : wire # {} /\ Deliver(Oldest, FALSE) /\ w' = s
   \/ \E d \in wire : Drop(d) /\ w' = 0
